@@ -415,7 +415,9 @@ def _py_serialize_headers(status_line: str, headers: "CIMultiDict[str]") -> byte
     _safe_header(status_line)
     headers_gen = (_safe_header(k) + ": " + _safe_header(v) for k, v in headers.items())
     line = status_line + "\r\n" + "\r\n".join(headers_gen) + "\r\n\r\n"
-    return line.encode("utf-8")
+    # the inverse of the parsers' codec: obs-text bytes of a received value
+    # (lone surrogates U+DC80..U+DCFF) go out as the bytes they came in as
+    return line.encode("utf-8", "surrogateescape")
 
 
 _serialize_headers = _py_serialize_headers
